@@ -46,6 +46,21 @@ type rec struct {
 	valSrc bool // sources are handed to the combinators by value, as an uncomparable struct type
 	// checks, run at the end of the case, that slices passed as variadic arguments were not modified by the callee
 	argChecks []func() bool
+	// an error reported to the consumer carried a scripted code but was not the scripted error VALUE itself
+	// (wrapped, copied or re-created): "errors surface intact" is about the value
+	notIntact []int
+}
+
+// code maps an error reported to the consumer to its observation (errCode) and checks that a scripted error arrives
+// as the very value that was injected.
+func (r *rec) code(err error) any {
+	var ce *codeErr
+	if errors.As(err, &ce) {
+		if direct, ok := err.(*codeErr); !ok || r.errs[direct.code] != direct {
+			r.notIntact = append(r.notIntact, ce.code)
+		}
+	}
+	return errCode(err)
 }
 
 // watchArgs remembers a slice that was passed to a variadic combinator as `s...`: the callee must leave the caller's
@@ -210,6 +225,10 @@ func streamSource(d map[string]any, r *rec) stream.Stream[int] {
 		return &scriptStream{evs: evs, r: r, nc: d["k"].(string) == "scriptnc"}
 	case "empty":
 		return stream.Empty[int]()
+	case "error":
+		// stream.Error(err): the real constructor, with the scripted error value of that code (one value per code:
+		// whatever reports the code must hand back this very value)
+		return stream.Error[int](r.err(num(d["e"])))
 	}
 	return stream.FromIterator(iterSource(d))
 }
@@ -620,7 +639,7 @@ func runPipes(c *Case) *Obs {
 				case "collect":
 					l, err := stream.Collect(ctx, sZ)
 					if err != nil {
-						res = errCode(err)
+						res = r.code(err)
 					} else {
 						if l == nil {
 							l = []int{}
@@ -630,7 +649,7 @@ func runPipes(c *Case) *Obs {
 				case "last":
 					l, err := stream.Last(ctx, sZ, num(rd[1]))
 					if err != nil {
-						res = errCode(err)
+						res = r.code(err)
 					} else {
 						if l == nil {
 							l = []int{}
@@ -640,7 +659,7 @@ func runPipes(c *Case) *Obs {
 				case "one":
 					x, err := stream.One(ctx, sZ)
 					if err != nil {
-						res = errCode(err)
+						res = r.code(err)
 					} else {
 						res = []any{"val", []int{x}}
 					}
@@ -653,7 +672,7 @@ func runPipes(c *Case) *Obs {
 						return a + x, nil
 					})
 					if err != nil {
-						res = errCode(err)
+						res = r.code(err)
 					} else {
 						res = []any{"val", []int{x}}
 					}
@@ -682,7 +701,7 @@ func runPipes(c *Case) *Obs {
 				if listPipe {
 					l, err := sL.Next(ctx)
 					if err != nil {
-						res = errCode(err)
+						res = r.code(err)
 					} else {
 						if l == nil {
 							l = []int{}
@@ -692,7 +711,7 @@ func runPipes(c *Case) *Obs {
 				} else {
 					x, err := sZ.Next(ctx)
 					if err != nil {
-						res = errCode(err)
+						res = r.code(err)
 					} else {
 						res = []any{"item", x}
 					}
@@ -718,7 +737,10 @@ func runPipes(c *Case) *Obs {
 			argsIntact = false
 		}
 	}
-	o.Aux = map[string]any{"log": r.log, "args_intact": argsIntact}
+	if r.notIntact == nil {
+		r.notIntact = []int{}
+	}
+	o.Aux = map[string]any{"log": r.log, "args_intact": argsIntact, "errors_not_intact": r.notIntact}
 	return o
 }
 
